@@ -42,7 +42,11 @@
                                                 clause.  Monitored end to end: the real queueing.watcher + worker +
                                                 process_resource_event on listing batches followed at once by watch events of
                                                 the same objects, with and without worker_limit, judged at quiescence —
-                                                resume-missed-end-to-end / resume-twice-end-to-end (c14_model.run_stream_history)
+                                                resume-missed-end-to-end / resume-twice-end-to-end (c14_model.run_stream_history);
+                                                likewise that a listing is delivered with type None (watching.continuous_watch /
+                                                infinite_watch) is outside the models (C19's watch continuity): the same monitor on
+                                                streams produced by the REAL infinite_watch over a fake LIST + WATCH with the first
+                                                LIST failing k times, 410 -> re-listing, disconnects (the histories named api:N)
    2  "each resume handler runs to completion at most once per object per operator process: re-listings, reconnects and
       later changes of the object do not repeat it"
       2a the flags ............................ full: C14_initial_monotone, C14_closed_cycle_ends_resuming,
